@@ -206,6 +206,7 @@ func c15Body(k c15Case, s *bsched.Sched) any {
 		callCtx = context.Background() // stays live; the interceptor substitutes ctx
 	}
 	record := func(op byte, f func() (string, error)) {
+		s.Gate("op." + string(op)) // every client operation starts at a yield point (see C14)
 		o := opObs{Op: op, Start: tick()}
 		class, err := f()
 		o.Class = class
@@ -474,6 +475,7 @@ func c15Explore(t *testing.T, c *ev.Collector, k c15Case) {
 		}
 	}
 	e.Explore()
+	c.AddExtra("replay_deviations_recovered", int64(len(e.Recovered)))
 	for _, d := range e.Divergences {
 		c.HarnessError("replay divergence in %s: %s", k.key(), d)
 	}
